@@ -1276,7 +1276,7 @@ def run(chk):
     chk.coverage["known_class_hits"] = {k: (v if isinstance(v, int) else len(v)) for k, v in list(res["known_hits"].items()) + list(known_rows.items())}
     chk.coverage["repaired_class_rows_checked"] = class_hits
 
-    fails.sort(key=lambda f: (0, len(f["record"])) if f["record"].startswith(("table", "jsonmethods")) else (1, 0))
+    fails.sort(key=lambda f: (0, len(f["record"])) if f.get("record", "").startswith(("table", "jsonmethods")) else (1, 0))
     for f in fails[:20]:
         chk.violation("failing-input", f)
     if not fails:
